@@ -28,6 +28,7 @@ class RealLike (α : Type) extends Add α, Sub α, Mul α, Div α, Neg α where
   sin : α → α
   cos : α → α
   arcsin : α → α
+  atan2 : α → α → α
   abs : α → α
   pow : α → α → α
   pi : α
@@ -83,6 +84,7 @@ instance : RealLike Float where
   sin := Float.sin
   cos := Float.cos
   arcsin := Float.asin
+  atan2 := Float.atan2
   abs := Float.abs
   pow := Float.pow
   pi := 3.141592653589793
@@ -126,3 +128,25 @@ instance : Add (Cx α) := ⟨add⟩
 instance : Sub (Cx α) := ⟨sub⟩
 instance : Mul (Cx α) := ⟨mul⟩
 end Cx
+
+/-! ### Arrays as index functions with an explicit length (what the translator emits for
+    NumPy arrays; reads outside the length are never produced by translated code whose source
+    indexes in range — that in-range premise is what C02 establishes). -/
+
+structure Arr (α : Type) where
+  n : Nat
+  get : Nat → α
+
+structure Arr2 (α : Type) where
+  n : Nat
+  m : Nat
+  get : Nat → Nat → α
+
+namespace Arr
+variable {α : Type} [RealLike α]
+/-- `np.mean(a)`: left-to-right sum divided by the length -/
+def mean (a : Arr α) : α := sumRange a.n a.get / RealLike.ofNat a.n
+def subS (a : Arr α) (c : α) : Arr α := ⟨a.n, fun i => a.get i - c⟩
+def add (a b : Arr α) : Arr α := ⟨a.n, fun i => a.get i + b.get i⟩
+def mul (a b : Arr α) : Arr α := ⟨a.n, fun i => a.get i * b.get i⟩
+end Arr
